@@ -1,1 +1,2 @@
--- property theorems and helper lemmas
+import S2Proofs.BitLemmas
+import S2Proofs.CellIDLemmas
